@@ -124,18 +124,36 @@ fn se_or_ext_string(input: Span) -> PResult<Value> {
 }
 
 fn single_expression(input: Span) -> PResult<Value> {
+    let (input1, a) = and_expression(input)?;
+    fold_many0(
+        (
+            delimited(
+                multispace0,
+                value(Operator::Or, tag("or")),
+                multispace1,
+            ),
+            and_expression,
+            position,
+        ),
+        move || a.clone(),
+        |a, (op, b, end)| {
+            let pos = input.up_to(&end).to_owned();
+            BinOp::new(a, false, op, false, b, pos).into()
+        },
+    )
+    .parse(input1)
+}
+
+fn and_expression(input: Span) -> PResult<Value> {
     let (input1, a) = logic_expression(input)?;
     fold_many0(
         (
             delimited(
                 multispace0,
-                alt((
-                    value(Operator::And, tag("and")),
-                    value(Operator::Or, tag("or")),
-                )),
+                value(Operator::And, tag("and")),
                 multispace1,
             ),
-            single_expression,
+            logic_expression,
             position,
         ),
         move || a.clone(),
@@ -148,6 +166,23 @@ fn single_expression(input: Span) -> PResult<Value> {
 }
 
 fn logic_expression(input: Span) -> PResult<Value> {
+    let (input1, a) = relational_expression(input)?;
+    fold_many0(
+        (
+            delimited(multispace0, equality_operator, multispace0),
+            relational_expression,
+            position,
+        ),
+        move || a.clone(),
+        |a, (op, b, end)| {
+            let pos = input.up_to(&end).to_owned();
+            BinOp::new(a, true, op, true, b, pos).into()
+        },
+    )
+    .parse(input1)
+}
+
+fn relational_expression(input: Span) -> PResult<Value> {
     let (input1, a) = sum_expression(input)?;
     fold_many0(
         (
@@ -164,10 +199,16 @@ fn logic_expression(input: Span) -> PResult<Value> {
     .parse(input1)
 }
 
-fn relational_operator(input: Span) -> PResult<Operator> {
+fn equality_operator(input: Span) -> PResult<Operator> {
     alt((
         value(Operator::Equal, tag("==")),
         value(Operator::NotEqual, tag("!=")),
+    ))
+    .parse(input)
+}
+
+fn relational_operator(input: Span) -> PResult<Operator> {
+    alt((
         value(Operator::GreaterE, tag(">=")),
         value(Operator::Greater, tag(">")),
         value(Operator::LesserE, tag("<=")),
